@@ -132,7 +132,7 @@ func (ck *checker) oracle(j *job) string {
 		cls := strings.SplitN(j.died, ":", 2)[0]
 		switch cls {
 		case "oom":
-			ck.violate(j, "oom", fmt.Sprintf("the process died of memory exhaustion under a %d MiB address-space cap during %s: a size field of the corrupted file is used for an allocation without being checked against the file size", *flagCap>>20, j.diedOp))
+			ck.violate(j, "oom", fmt.Sprintf("the process died of memory exhaustion under a %d MiB address-space cap during %s, again when re-run alone in a fresh worker: a size field of the corrupted file is used for an allocation without being checked against the file size", *flagCap>>20, j.diedOp))
 		case "timeout":
 			cls = "hang"
 			ck.violate(j, "hang", fmt.Sprintf("the read did not finish within %d s, also when re-run alone (op %s)", int(hangRecheck.Seconds()), j.diedOp))
